@@ -109,6 +109,18 @@ class P(Play):
                 raise Fail("invalid-value-accepted", f"step {self.i}: current_state_value = {v!r} (unmapped) did not raise InvalidStateValue")
             self.check_state(ctx, f"step {self.i} rejected write of {v!r}")
             self.labels.add("invalid:setter")
+        elif step["via"] == "foreign-state":
+            # a State object that does not belong to this machine (free-standing, or of another class) assigned to current_state
+            from statemachine import State
+
+            try:
+                sm.current_state = State("Foreign", value=v)
+            except InvalidStateValue:
+                pass
+            else:
+                raise Fail("invalid-value-accepted", f"step {self.i}: current_state = <a State of no machine, value {v!r}> did not raise InvalidStateValue")
+            self.check_state(ctx, f"step {self.i} rejected foreign State({v!r})")
+            self.labels.add("invalid:foreign-state")
         else:
             if v is None:
                 return
@@ -164,7 +176,7 @@ def cases(draw, tier):
         if r < 3:
             hist.append({"op": "write", "via": draw(st.sampled_from(["model", "csv", "cs"])), "state": draw(st.integers(0, 4))})
         elif r < 5:
-            hist.append({"op": "write_invalid", "via": draw(st.sampled_from(["setter", "model"])), "value": draw(st.sampled_from(UNMAPPED))})
+            hist.append({"op": "write_invalid", "via": draw(st.sampled_from(["setter", "model", "foreign-state"])), "value": draw(st.sampled_from(UNMAPPED))})
         elif r < 7:
             rec = {"op": "reconstruct"}
             if draw(st.integers(0, 2)) == 0:
